@@ -172,6 +172,10 @@ fn json_value(depth: u32) -> BoxedStrategy<String> {
     .boxed()
 }
 
+pub fn any_line_pub() -> impl Strategy<Value = String> {
+    any_line()
+}
+
 fn any_line() -> impl Strategy<Value = String> {
     prop_oneof![
         6 => request_line(),
@@ -652,6 +656,7 @@ pub fn run(ctx: &Ctx) -> &'static str {
     );
     if ctx.tier == Tier::Thorough {
         concurrent_stress(ctx);
+        crate::props::e2e::run(ctx, crate::props::e2e::Phase::Control, 1);
         crate::fuzzrun::campaign(ctx, "c18_control", 300);
     }
     "exploration"
